@@ -33,6 +33,8 @@ ScalarNeedsSigning == (~s.private /\ Held(s) \cap ScalarEnc # {}) => Used({"sign
 XprvNeverHeld == ~s.private => "xprv" \notin Held(s)
 KeyCopyHoldsOnlyWif == (~s.private /\ s.kind \in KeyKinds) => Held(s) \subseteq {"wif"}
 
+\* no combination of optional arguments makes an export call a private view, and every call has an argument space
+ASSUME \A c \in KeyCalls \cup HDOnlyCalls \cup SigCalls \cup TxCalls : ArgSpace(c) # {} /\ (c \notin CallsWithArgs => ArgSpace(c) = {NoArgs})
 \* wallet and database operators: the property semantics expects nothing, for every call and item
 ASSUME \A c \in {"wk_repr", "tx_save", "as_dict", "info", "public_master"}, p \in BOOLEAN, g \in BOOLEAN :
           WOut({}, c, [priv |-> p, signed |-> g]) = {}
